@@ -238,6 +238,82 @@ class Extractor {
     J.raw("]");
   }
 
+
+  // enum-valued template arguments (policies), collected through nested class template specialisations:
+  // "yaclib::FailPolicy=1"
+  void EnumArgsOf(const TemplateArgument& A, std::vector<std::string>& out, int depth) {
+    if (depth > 5) {
+      return;
+    }
+    switch (A.getKind()) {
+      case TemplateArgument::Integral: {
+        QualType T = A.getIntegralType();
+        if (const auto* ET = T->getAs<EnumType>()) {
+          out.push_back(ET->getDecl()->getQualifiedNameAsString() + "=" + toString(A.getAsIntegral(), 10));
+        }
+        break;
+      }
+      case TemplateArgument::Type: {
+        QualType T = A.getAsType().getCanonicalType();
+        while (!T.isNull() && (T->isPointerType() || T->isReferenceType())) {
+          T = T->getPointeeType();
+        }
+        if (T.isNull()) {
+          break;
+        }
+        if (const auto* RD = T->getAsCXXRecordDecl()) {
+          EnumArgsOfRecord(RD, out, depth + 1);
+        }
+        break;
+      }
+      case TemplateArgument::Pack:
+        for (const auto& P : A.pack_elements()) {
+          EnumArgsOf(P, out, depth + 1);
+        }
+        break;
+      default:
+        break;
+    }
+  }
+  void EnumArgsOfRecord(const CXXRecordDecl* RD, std::vector<std::string>& out, int depth) {
+    if (depth > 5 || RD == nullptr) {
+      return;
+    }
+    if (const auto* CTS = dyn_cast<ClassTemplateSpecializationDecl>(RD)) {
+      const auto& L = CTS->getTemplateArgs();
+      for (unsigned i = 0; i < L.size(); ++i) {
+        EnumArgsOf(L.get(i), out, depth + 1);
+      }
+    }
+    if (const auto* P = dyn_cast_or_null<CXXRecordDecl>(RD->getDeclContext())) {
+      EnumArgsOfRecord(P, out, depth + 1);
+    }
+  }
+  void EnumArgs(Json& J, const char* name, const FunctionDecl* FD) {
+    std::vector<std::string> out;
+    if (const auto* TA = FD->getTemplateSpecializationArgs()) {
+      for (unsigned i = 0; i < TA->size(); ++i) {
+        EnumArgsOf(TA->get(i), out, 0);
+      }
+    }
+    if (const auto* MD = dyn_cast<CXXMethodDecl>(FD)) {
+      EnumArgsOfRecord(MD->getParent(), out, 0);
+    }
+    if (out.empty()) {
+      return;
+    }
+    std::sort(out.begin(), out.end());
+    out.erase(std::unique(out.begin(), out.end()), out.end());
+    J.raw(std::string(",\"") + name + "\":[");
+    for (unsigned i = 0; i < out.size(); ++i) {
+      if (i) {
+        J.raw(",");
+      }
+      J.num(S(out[i]));
+    }
+    J.raw("]");
+  }
+
   // ------------------------------------------------------------------ per function state
   struct FnCtx {
     std::unordered_map<const Stmt*, unsigned> id;
@@ -312,6 +388,7 @@ class Extractor {
       J.raw(",\"cta\":");
       TArgs(J, TA);
     }
+    EnumArgs(J, "cpe", FD);
   }
 
   unsigned IdOf(FnCtx& X, const Stmt* St) {
@@ -857,6 +934,7 @@ class Extractor {
       J.raw(",\"fta\":");
       TArgs(J, TA);
     }
+    EnumArgs(J, "pe", FD);
     if (FD->isExternC()) {
       J.raw(",\"externc\":1");
     }
